@@ -152,7 +152,12 @@ pub fn run_check(prop: &str, tier: &str) -> i32 {
     match prop {
         "C01" => {
             let mut s = suites::all_suites(thorough);
-            s.extend(suites::full_ttl_suites(thorough));
+            // (in this check the deep tiny-device TTL suites are time-capped from level 6 on; the C08 check
+            // keeps their full floor)
+            s.extend(suites::full_ttl_suites(thorough).into_iter().map(|mut x| {
+                x.uncapped_levels = x.uncapped_levels.min(5);
+                x
+            }));
             s.sort_by_key(|x| (x.name.starts_with("focus"), x.cfg.persistent));
             // range results of a sequential history are part of the C01 statement (the model words them as C14)
             // ... and so is an automatic write the store refuses as older (worded as C12)
